@@ -328,6 +328,44 @@ def kwargs_replay(ctx):
     tlc.cleanup(res.workdir)
 
 
+def long_outlines(ctx):
+    """Polygons with very many vertices (the pixel-edge contour of a large mask, a serrated outline): the patch runs through every
+    vertex of the region, shifted by the plot origin - none is dropped or merged (Geometry!Member is about the polygon of ALL vertices)."""
+    import numpy as np
+    from regions import PixCoord, PolygonPixelRegion
+    n = 0
+    for nteeth, origin in ((2600, (0.0, 0.0)), (6100, (3.5, -2.25)), (3, (1.0, 1.0))):
+        # a comb: teeth one pixel wide and four pixels high on a base line, closed below
+        xs, ys = [], []
+        for t in range(nteeth):
+            xs += [2.0 * t, 2.0 * t, 2.0 * t + 1, 2.0 * t + 1]
+            ys += [0.0, 4.0, 4.0, 0.0]
+        xs += [2.0 * nteeth, 2.0 * nteeth, -1.0, -1.0]
+        ys += [0.0, -3.0, -3.0, 0.0]
+        reg = PolygonPixelRegion(PixCoord(np.array(xs), np.array(ys)))
+        n += 1
+        ctx.case(('long-outline', nteeth, origin), True)
+        case = {'vertices': len(xs), 'origin': list(origin)}
+        try:
+            xy = np.asarray(reg.as_artist(origin=origin).get_xy(), dtype=float)
+        except Exception as ex:  # noqa
+            ctx.violation(f'C18|long-outline|raises|{type(ex).__name__}', f'as_artist of a polygon with {len(xs)} vertices raised {ex!r}', case)
+            continue
+        want = np.column_stack([np.array(xs) - origin[0], np.array(ys) - origin[1]])
+        if len(xy) == len(want) + 1 and np.array_equal(xy[-1], xy[0]):
+            xy = xy[:-1]                       # matplotlib closes the path by repeating the first vertex
+        if xy.shape != want.shape or not np.array_equal(xy, want):
+            ctx.violation('C18|long-outline|vertices', f'the patch of a polygon with {len(want)} vertices has {len(xy)} vertices'
+                          + ('' if xy.shape != want.shape else ' at other positions'), case)
+            continue
+        # a tooth tip is inside both, the gap between two teeth outside both
+        for px, py, inside in ((2.0 * (nteeth // 2) + 0.5, 3.5, True), (2.0 * (nteeth // 2) + 1.5, 3.5, False)):
+            if bool(reg.contains(PixCoord(px, py))) != inside:
+                ctx.violation('C18|long-outline|member', f'polygon with {len(want)} vertices: contains({px}, {py}) is not {inside}', case)
+    ctx.traces += n
+    ctx.note('long_outlines', n)
+
+
 def run(ctx):
     quick = ctx.tier == 'quick'
     rnd = random.Random(ctx.seed * 73 + 18)
@@ -352,6 +390,7 @@ def run(ctx):
     tlc.cleanup(res.workdir)
     others(ctx, rnd)
     kwargs_replay(ctx)
+    long_outlines(ctx)
     trace_validation(ctx, rnd)
     from . import selector
     selector.run(ctx)            # observations about as_mpl_selector (not part of C18's statement): never a violation
